@@ -133,9 +133,19 @@ def replay(case):
             p2 = LLOneParser(rc[1])
             evs.append(dict(cfgh.bool_event("is_llone_parsable", G2, guard.call(p2.is_llone_parsable)), via=conv))
             evs.append(dict(_dict_event("get_follow_set", G2, guard.call(p2.get_follow_set)), via=conv))
+    # a grammar object that answered other queries before the parser was built on it
+    g6, _, _ = cfgh.make(case["prods"], case["vpool"], case["tpool"])
+    for q in (g6.is_empty, g6.get_generating_symbols, lambda: g6.contains([])):
+        guard.call(q, timeout=2.0)
+    p6 = LLOneParser(g6)
+    evs.append(dict(_dict_event("get_first_set", G, guard.call(p6.get_first_set)), aged="grammar queried first"))
+    evs.append(dict(_dict_event("get_follow_set", G, guard.call(p6.get_follow_set)), aged="grammar queried first"))
+    evs.append(dict(cfgh.bool_event("is_llone_parsable", G, guard.call(p6.is_llone_parsable)), aged="grammar queried first"))
     words = cfgh.words_upto(case["tpool"], case["L"], extra=("c",) if any("c" in b for _, b in case["prods"]) else ())
     if len(words) > 60:
         words = [w for w in words if len(w) <= 3]
+    # words that end in a symbol spelled like the parser's end marker (an unknown symbol: never a member)
+    words = words + [tuple(w) + ("$",) for w in words if len(w) <= 2]
     results = []
     for w in words:
         r = guard.call(LLOneParser(g).get_llone_parse_tree, list(w), timeout=2.0)
